@@ -1207,6 +1207,26 @@ class RawAlgorithmsMixIn:
 
         (xbar_data, ybar_data) = out
 
+        if x_data.ndim > 4 or y_data.ndim > 4:
+            # operands of rank > 2:  z[i...,j...,n] = sum_k x[i...,k] y[j...,k,n]   (z[i...] = sum_k x[i...,k] y[k] for a vector y)
+            D,P = x_data.shape[:2]
+            a = x_data.ndim - 2
+            b = y_data.ndim - 2
+            for d in range(D):
+                for p in range(P):
+                    for c in range(d+1):
+                        zb = zbar_data[c,p]
+                        X = x_data[d-c,p]
+                        Y = y_data[d-c,p]
+                        if b == 1:
+                            xbar_data[d,p] += numpy.multiply.outer(zb, Y)
+                            ybar_data[d,p] += numpy.tensordot(X, zb, axes=(list(range(a-1)), list(range(a-1))))
+                        else:
+                            xbar_data[d,p] += numpy.tensordot(zb, Y, axes=(list(range(a-1, a+b-2)), list(range(b-2)) + [b-1]))
+                            tmp = numpy.tensordot(X, zb, axes=(list(range(a-1)), list(range(a-1))))
+                            ybar_data[d,p] += numpy.moveaxis(tmp, 0, b-2)
+            return out
+
         if x_data.ndim == 4 and y_data.ndim == 3:
             # matrix-vector product: treat y and z as one-column matrices
             y_data = y_data[..., numpy.newaxis]
